@@ -354,6 +354,15 @@ func (f *Func) reachTarget(
 				skip = true
 				argMap[graph.VertexID(out)] = v.Value
 			}
+
+		case *valueVertex:
+			// A named value that is already known (supplied directly or
+			// produced earlier in this call) is used as is: an exact match
+			// must not lose against a conversion from another value.
+			if v.Value.IsValid() {
+				skip = true
+				argMap[graph.VertexID(out)] = v.Value
+			}
 		}
 
 		// If we're skipping because we have this value already, then
